@@ -1076,6 +1076,6 @@ func TestVerifC17Aux(t *testing.T) {
 			maxFaults: 1, depth: 8, legacy: true})
 		// migration of a Pending pod: the reservation is owned by the pod itself, nothing is to be evicted
 		c17Run(t, env, &c17Cfg{name: "rf-pending-pod-hist", kind: "rf", mode: sev1alpha1.PodMigrationJobModeReservationFirst, pending: true,
-			maxFaults: 1, depth: 8})
+			maxFaults: 1, depth: 7})
 	}
 }
